@@ -41,7 +41,7 @@ func init() {
 	reg.Register(runner.Check{
 		ID:    "C15",
 		Level: "model_checking",
-		Rule: "stateless exploration (<=Ds scheduling deviations per scenario) of close/stop scenarios on the real client and server, TCP and UDP: blocked reader at each end (one or two sessions on the client; the second session must keep working) x closer {client conn, server conn, both, client Stop, server Stop, network loss then Close} x idle period before the close {0, 3 s, 7 s, 70 s}; blocked writer under back-pressure x closer; repeated Close; write then Close without any Read (0-RTT client, and server); UDP one-way black hole until the sender's retransmission limit; deadline scripts (deadline then several Reads / Writes, deadline moved, cleared, in the past) at both ends; " +
+		Rule: "stateless exploration (<=Ds scheduling deviations per scenario; a deviation is a switch to another goroutine at a synchronisation point or, in the two-session and write-then-close scenarios and in every schedule scenario of the thorough tier, a goroutine held up for 20 ms / 2 s before an atomic write) of close/stop scenarios on the real client and server, TCP and UDP: blocked reader at each end (one or two sessions on the client; the second session must keep working) x closer {client conn, server conn, both, client Stop, server Stop, network loss then Close} x idle period before the close {0, 3 s, 7 s, 70 s}; blocked writer under back-pressure x closer; repeated Close; write then Close without any Read (0-RTT client, and server); UDP one-way black hole until the sender's retransmission limit; deadline scripts (deadline then several Reads / Writes, deadline moved, cleared, in the past) at both ends; " +
 			"oracles: every call returns; a call blocked when the closer acted returns within 20 s of it; Close/Stop return within 20 s; a Read/Write that cannot complete returns a timeout no later than 1 s after the deadline in force; 30 s after both ends were shut down no goroutine started by mieru is alive. evaluations = executions",
 		Assumptions: []string{
 			"'promptly (seconds, not the idle-read timeout)' is judged as <= 20 s of virtual time; the idle-read timeouts are 60-120 s",
@@ -197,11 +197,12 @@ type params struct {
 	Closer string
 	Idle   time.Duration
 	Ds     int
+	Stalls bool // goroutines may also be held up for 20 ms / 2 s before an atomic write (a deviation)
 	Seed   int64
 }
 
 func (p params) String() string {
-	return fmt.Sprintf("udp=%v scenario=%s closer=%s idle=%v seed=%d", p.UDP, p.Kind, p.Closer, p.Idle, p.Seed)
+	return fmt.Sprintf("udp=%v scenario=%s closer=%s idle=%v stalls=%v seed=%d", p.UDP, p.Kind, p.Closer, p.Idle, p.Stalls, p.Seed)
 }
 
 // pair opens one proxy connection and returns both application ends.
@@ -263,6 +264,9 @@ func run1(p params, ctl *explore.Ctl) explore.Result {
 	}
 	if p.Kind == "one-way-blackhole" {
 		cfg.Horizon = 400 * time.Second
+	}
+	if p.Ds > 0 && p.Stalls {
+		cfg.Stalls = []time.Duration{20 * time.Millisecond, 2 * time.Second}
 	}
 	var leaked []string
 	shutdownDone := false
@@ -736,7 +740,7 @@ func units(tier string) []runner.Unit {
 				add(params{UDP: udp, Kind: "two-sessions", Closer: cl, Idle: idle}, 1)
 			}
 			if !udp || tier == "thorough" {
-				add(params{UDP: udp, Kind: "two-sessions", Closer: cl, Ds: 1}, 20)
+				add(params{UDP: udp, Kind: "two-sessions", Closer: cl, Ds: 1, Stalls: true}, 20)
 			}
 		}
 		for _, side := range []string{"client", "server"} {
@@ -747,7 +751,7 @@ func units(tier string) []runner.Unit {
 		}
 		for _, v := range []string{"client-writes", "client-writes-large", "server-writes", "server-writes-large"} {
 			add(params{UDP: udp, Kind: "write-then-close", Closer: v}, 1)
-			add(params{UDP: udp, Kind: "write-then-close", Closer: v, Ds: 1}, 10)
+			add(params{UDP: udp, Kind: "write-then-close", Closer: v, Ds: 1, Stalls: true}, 10)
 		}
 		if udp {
 			add(params{UDP: udp, Kind: "one-way-blackhole", Closer: "client-to-server-lost"}, 4)
@@ -759,7 +763,7 @@ func units(tier string) []runner.Unit {
 			if tier != "thorough" && (cl == "both-stop" || cl == "network-loss") {
 				continue
 			}
-			add(params{UDP: udp, Kind: "blocked-readers", Closer: cl, Ds: ds}, 20)
+			add(params{UDP: udp, Kind: "blocked-readers", Closer: cl, Ds: ds, Stalls: tier == "thorough"}, 20)
 		}
 	}
 	return us
